@@ -215,18 +215,26 @@ class Runner:
                 if after[gi] != before[gi] or sv != steps_before[gi]:
                     mism.append((f"g{gi+1}.untouched_after_abort", "unchanged", "changed"))
                 continue
-            # root ages from changed bits
+            # root / basis ages: a successful call of the matrix routine for (block, factor) at this step (the stored value itself may
+            # legitimately be bitwise unchanged: 1x1 and diagonal-flagged SOAP bases, roots recomputed from an unchanged factor)
+            ok_calls = {(b, k) for (g2, b, k, o) in calls if g2 == gi and o == "ok"}
+            for (b, k) in ok_calls:
+                if k - 1 < len(self.root_at[gi][b - 1]):
+                    self.root_at[gi][b - 1][k - 1] = sv
             for (b, name), h in after[gi].items():
-                if name.startswith("root") and before[gi][(b, name)] != h:
-                    self.root_at[gi][b - 1][int(name[4:]) - 1] = sv
+                if not name.startswith("root"):
+                    continue
+                k = int(name[4:])
+                changed_ = before[gi][(b, name)] != h
+                if changed_ and (b, k) not in ok_calls:
+                    mism.append((f"g{gi+1}.root_changed_without_successful_computation.b{b}.k{k}", "stored matrix kept", "changed"))
+                if (b, k) in ok_calls and not changed_ and g["kind"] == "shampoo" and draw.get("grad_mode", "dense") == "dense" \
+                        and raised == "none":
+                    mism.append((f"g{gi+1}.computed_root_not_stored.b{b}.k{k}", "stored matrix updated", "bitwise unchanged"))
             ob = {"has": True, "reached": True, "step": sv, "stepped": sv != steps_before[gi],
                   "raised": raised if gi == raising_group else "none",
                   "calls": [[b, k, o] for (g2, b, k, o) in calls if g2 == gi],
-                  "active": active}
-            if draw.get("grad_mode", "dense") == "dense":
-                # root ages are observed through changed bits, which is only sound for generic gradients (a root recomputed from an
-                # unchanged factor is bitwise the same); otherwise the field is left out and the call list carries the information
-                ob["rootAt"] = [list(r) for r in self.root_at[gi]]
+                  "active": active, "rootAt": [list(r) for r in self.root_at[gi]]}
             if self.flags is not None:
                 ob["stepped"] = gi in self.flags
                 if gi in self.flags:
@@ -310,7 +318,9 @@ class Runner:
                     m = (qq.T @ q).abs()
                     if float((m.max(dim=0).values - 1).abs().max()) > 1e-6 or float((m.sum(dim=0) - 1).abs().max()) > 1e-5:
                         out.append((f"g{gi+1}.basis_qr_update.b{b}.k{k1}", "columns of qr(A Q_prev) up to sign/order", m.tolist()))
-            if n > 1 and bool((ray[1:] < ray[:-1] - 1e-8 * scale).any()):
+            # ordering is only promised by the eigendecomposition routine itself (C12); a factor that has been diagonal so far
+            # legitimately gets the identity basis, whatever the order of its diagonal
+            if n > 1 and not torch.equal(q, eye) and bool((ray[1:] < ray[:-1] - 1e-8 * scale).any()):
                 out.append((f"g{gi+1}.basis_order.b{b}.k{k1}", "ascending Rayleigh quotients", ray.tolist()))
         return out
 
